@@ -240,10 +240,13 @@ static void sched_point(const char *kind) {
     snprintf(needle, sizeof needle, ",%s,", kind);
     if (!strstr(sched_at, needle)) return;
     int n = sched_seq++;
-    char path[700];
+    char path[700], tmp[700];
     snprintf(path, sizeof path, "%s/%s.%d.at", sched_dir, sched_id, n);
-    int fd = (int)syscall(SYS_openat, AT_FDCWD, path, O_WRONLY | O_CREAT | O_CLOEXEC, 0644);
+    snprintf(tmp, sizeof tmp, "%s/%s.%d.tmp", sched_dir, sched_id, n);
+    /* published atomically: the harness never sees the announcement without its contents */
+    int fd = (int)syscall(SYS_openat, AT_FDCWD, tmp, O_WRONLY | O_CREAT | O_CLOEXEC, 0644);
     if (fd >= 0) { long r = syscall(SYS_write, fd, kind, strlen(kind)); (void)r; syscall(SYS_close, fd); }
+    syscall(SYS_renameat, AT_FDCWD, tmp, AT_FDCWD, path);
     trace("S %d %s parked\n", n, kind);
     snprintf(path, sizeof path, "%s/%s.%d.go", sched_dir, sched_id, n);
     struct timespec t0, t1;
